@@ -240,6 +240,38 @@ def check(cx):
         searches = [e for e in it.events if e['kind'] == 'search']
         nf = NF()
 
+        def reindex(ev, P, ivar):
+            from ..models import stream_len
+            P = subst_term(P, repl)
+            idxs = {e_[2] for e_ in subterms(P) if e_[0] == 'elem' and e_[1] == FS}
+            if len(idxs) != 1:
+                return None
+            g = next(iter(idxs))
+            try:
+                n_dom = subst_term(stream_len(it, st, ev['base']), repl)
+            except Unsupported:
+                return None
+            if not isinstance(n_dom, tuple) or ivar in set(subterms(n_dom)):
+                return None
+            desc = None
+            for sign in (1, -1):
+                a_ = it.iadd(g, ivar) if sign == 1 else it.isub(g, ivar)
+                if ivar not in set(subterms(a_)):
+                    desc = sign == 1
+                    break
+            if desc is None:
+                return None
+            kvar = it.fresh_sym('κ')
+            P_k = subst_term(P, {g: kvar})
+            if ivar in set(subterms(P_k)):
+                return None
+            one = ('ic', 1)
+            if desc:
+                lo, hi = it.iadd(it.isub(a_, n_dom), one), it.iadd(a_, one)
+            else:
+                lo, hi = a_, it.iadd(a_, n_dom)
+            return a_, desc, lo, hi, kvar, P_k
+
         def one_path(A, forward):
             probs = []
             tstart = subst_term(simp(tail2.start, A), repl) if isinstance(tail2, SliceRef) else None
@@ -265,15 +297,33 @@ def check(cx):
                 else:
                     # searching the whole front is equivalent on sorted input: by (B) no k ≥ t has end_k ≤ x < L
                     okd = same and s_ == ('ic', 0) and (e_ == t or e_ == n1 or nf(e_).equals(nf(t)))
-            if not okd:
-                probs.append('search domain is %s, expected %s' % (term_str(sterm)[:200], 'front[t..]' if forward else 'front[..t]'))
-            if forward and ev['rev']:
-                probs.append('search is from the back (last match instead of first)')
-            if not forward and not ev['rev']:
-                probs.append('search is not from the back (first match instead of last)')
             ivar = ev['ivar']
             P = ev['pred']
+            is_rev = ev['rev']
+            idx_as = None
             s0 = subst_term(dom.parts[0].start, repl) if okd else ('ic', 0)
+            if not okd:
+                # a search over some other finite stream whose ι-th element is judged by front[a ∓ ι] alone is the search
+                # over front[lo..hi] in that order: re-index it by k = a ∓ ι
+                re_ = reindex(ev, P, ivar)
+                if re_ is not None:
+                    a_, desc, lo, hi, kvar, P_k = re_
+                    if forward:
+                        okd = (lo == t or nf(lo).equals(nf(t))) and nf(hi).equals(nf(n1))
+                    else:
+                        okd = nf(lo).is_zero() and (nf(hi).equals(nf(t)) or nf(hi).equals(nf(n1)))
+                    if okd:
+                        is_rev = (desc != bool(ev['rev']))
+                        P, ivar_old, ivar = P_k, ivar, kvar
+                        sterm = ('reindexed', sterm)
+                        s0 = ('ic', 0)
+                        idx_as = (lambda k_: it.isub(a_, k_)) if desc else (lambda k_: it.isub(k_, a_))
+            if not okd:
+                probs.append('search domain is %s, expected %s' % (term_str(sterm)[:200], 'front[t..]' if forward else 'front[..t]'))
+            if forward and is_rev:
+                probs.append('search is from the back (last match instead of first)')
+            if not forward and not is_rev:
+                probs.append('search is not from the back (first match instead of last)')
             pc = pred_class(P, ('elem', FS, it.iadd(s0, ivar) if s0 != ('ic', 0) else ivar, 'end'), x)
             if forward:
                 rep.ob('pred', inst + ':forward', pc == 'gt', 'scan stops at the first tail segment with ' + term_str(P)[:120],
@@ -284,7 +334,7 @@ def check(cx):
                        msg='backward search looks for `%s`, expected end <= x: %s' % (term_str(P)[:120], pc))
             kidx = ('firstidx' if forward else 'lastidx', sterm, ivar, P)
             found = ('found', sterm, ivar, P)
-            m = {subst_term(ev['idx'], repl): kidx, subst_term(ev['found'], repl): found}
+            m = {subst_term(ev['idx'], repl): kidx if idx_as is None else idx_as(kidx), subst_term(ev['found'], repl): found}
             tb = subst_term(tstart, m)
             spm = subst_term(sp, m)
             from ..models import recanon
